@@ -55,7 +55,9 @@ CHECKS = {
                      "never shrink it, and emits every construction history (polar by direction / angle, intersection, resection by directions / angles, "
                      "trilateration, two distances + bearing, inserted traverse, in every order over 4-5 points, plus further observations); each network "
                      "is written without approximate coordinates under names and document orders that hide the construction order and every point of the "
-                     "closure must come out at its true position.",
+                     "closure must come out at its true position. AcordHeights.tla does the same for heights (levelled differences, zenith angles with slope / "
+                     "horizontal distance or alone, vectors, either direction, every spanning tree), Acord3D.tla for spatial constructions in which "
+                     "position and height have to be derived in a particular order.",
                 note="trusted: textbook observation formulas in tools/session.py; the closure is one-sided (nothing is claimed for points outside it) "
                      "and covers horizontal positions; heights are covered by the OmitApprox edits of the templates", ref="8/C06"),
     "C07": dict(cat="exploration", technique="TLC-generated edit sessions replayed on gama-local; per-edit laws checked on results projected to the physical frame",
